@@ -82,6 +82,15 @@ def check(tier, seed):
                 c.violation("correspondence c13 (acceptance: the model does not accept the implementation's output as a complete run: %s); output is still a feedback vertex set" % mo[i][:80],
                             {"component": "c13", "theorem_or_correspondence": "correspondence c13: extracted greedy_fvs replaying harness/c13.cpp output as picks",
                              "case": cases[i], "impl": io[i], "model": mo[i], **hd}, False)
+        # graphs beyond the range of narrow index types (n > 2^8, n > 2^16): judged against the property text only
+        bigs = [gen.graph_tokens(g) for g in gen.big_graphs(c.rng)]
+        bio = lib.run_lines([exe], bigs, par=1, timeout=600)
+        c.extra["big_graphs"] = [int(b.split()[0]) for b in bigs]
+        for b, o in zip(bigs, bio):
+            c.count(b[:200], True, bucket="big")
+            why = judge(b, o)
+            if why:
+                c.violation("greedy_fvs on a graph with %s vertices: %s" % (b.split()[0], why[:300]), {"component": "c13", "case": b, "impl": o[:2000], "judge_only": True}, True)
     return c.finish(
         assumptions=["pairing_heap::top returns some element of the heap (which one is the oracle, universally quantified in the theorems)",
                      "termination of the real loop is a runtime fact; the model proves every complete run yields a feedback vertex set and that complete runs exist"],
@@ -103,9 +112,10 @@ def replay(path):
     else:
         i = lib.run_lines([exe], [line], par=1)[0]
     picks = i.split()[1:] if i.startswith("OK") else []
-    m = lib.run_model("c13", ["%s %d %s" % (line, len(picks), " ".join(picks))], par=1)[0]
+    if r.get("judge_only"): m = None
+    else: m = lib.run_model("c13", ["%s %d %s" % (line, len(picks), " ".join(picks))], par=1)[0]
     why = judge(line, i)
-    print("case :", line); print("model:", m); print("impl :", i); print("judge:", why)
-    if why or m != i:
+    print("case :", line[:2000]); print("model:", (m or "-")[:2000]); print("impl :", i[:2000]); print("judge:", why)
+    if why or (m is not None and m != i):
         print("VIOLATION property=%s replay=%s" % (PID, path)); return 1
     return 0
